@@ -519,6 +519,69 @@ func c08Across(c *Ctx, cs c08case, local map[string]int64) {
 	local["across.ok"]++
 }
 
+// c08OneParser: one Parser reads the same spelling several times in a row -
+// three bare durations through Parser.ParseDuration, then the spelling as the
+// retention duration of two statements, going on after an error. Every
+// reading gives what the spelling gives alone: the exact sum or an error.
+func c08OneParser(c *Ctx, cs c08case, local map[string]int64) {
+	r := c.R
+	if cs.neg {
+		return
+	}
+	d := compsText(false, cs.comps)
+	want := exactSum(false, cs.comps)
+	fits := fitsI64(want)
+	text := d + " " + d + "\n" + d + " ; ALTER RETENTION POLICY rp ON db DURATION " + d + " ; ALTER RETENTION POLICY rp ON db DURATION " + d
+	type res struct {
+		v   int64
+		err error
+	}
+	var got []res
+	if p, pv, stk := mon.Try(func() {
+		ps := influxql.NewParser(strings.NewReader(text))
+		for k := 0; k < 3; k++ {
+			v, err := ps.ParseDuration()
+			got = append(got, res{int64(v), err})
+		}
+		for k := 0; k < 2; k++ {
+			if tok, _, _ := ps.ScanIgnoreWhitespace(); tok != influxql.SEMICOLON {
+				return
+			}
+			st, err := ps.ParseStatement()
+			var v int64
+			if a, ok := st.(*influxql.AlterRetentionPolicyStatement); ok && err == nil && a.Duration != nil {
+				v = int64(*a.Duration)
+			}
+			got = append(got, res{v, err})
+		}
+	}); p {
+		r.Violation("panic-in-parse", map[string]interface{}{"sub": "oneparser", "input": text, "why": fmt.Sprint(pv), "stack": stk})
+		return
+	}
+	r.Eval(1)
+	for k, g := range got {
+		where := fmt.Sprintf("reading %d of 5 by one parser", k+1)
+		switch {
+		case fits && k >= 3 && g.err != nil && want.Sign() != 0 && want.Int64() < int64(time.Hour):
+			// the statement has a rule of its own (retention of at least 1h)
+		case fits && g.err != nil:
+			r.Violation("in-range-rejected", map[string]interface{}{"sub": "oneparser", "input": text, "why": fmt.Sprintf("%s: %q denotes %s but is rejected: %v", where, d, want, g.err)})
+			return
+		case fits && g.v != want.Int64():
+			r.Violation("wrong-value", map[string]interface{}{"sub": "oneparser", "input": text, "why": fmt.Sprintf("%s: %q denotes %s, got %d", where, d, want, g.v)})
+			return
+		case !fits && g.err == nil:
+			r.Violation("overflow-accepted", map[string]interface{}{"sub": "oneparser", "input": text, "why": fmt.Sprintf("%s: the exact sum %s of %q does not fit in int64 but the reading succeeds with %d", where, want, d, g.v)})
+			return
+		}
+	}
+	if len(got) == 5 {
+		local["oneparser.five-readings"]++
+	} else {
+		local["oneparser.partial"]++
+	}
+}
+
 // c08Signed: a duration literal behind an explicit sign in an expression.
 func c08Signed(c *Ctx, cs c08case, local map[string]int64) {
 	r := c.R
@@ -691,6 +754,13 @@ func checkC08(c *Ctx) (string, bool, []string) {
 					c08Across(c, cs, local)
 				}
 			}
+		case "oneparser":
+			in := replayStr(c, "input")
+			if k := strings.Index(in, " "); k > 0 {
+				if cs, ok := parseCompsText(in[:k]); ok {
+					c08OneParser(c, cs, local)
+				}
+			}
 		case "signed":
 			in := strings.TrimSpace(strings.TrimLeft(replayStr(c, "input"), "+-"))
 			if cs, ok := parseCompsText(in); ok {
@@ -822,6 +892,9 @@ func checkC08(c *Ctx) (string, bool, []string) {
 		if !cs.neg && rg.P(0.05) {
 			c08Signed(c, cs, local)
 			c08Across(c, cs, local)
+		}
+		if !cs.neg && rg.P(0.2) {
+			c08OneParser(c, cs, local)
 		}
 		if i < 4 {
 			r.Sample(map[string]interface{}{"ParseDuration": compsText(cs.neg, cs.comps), "exact_sum_ns": exactSum(cs.neg, cs.comps).String()})
